@@ -334,3 +334,25 @@ Print Assumptions C12_sort_graph.
 Print Assumptions C12_ref_remap.
 Print Assumptions C12_relabel_adjacent.
 Print Assumptions C12_resolve_all_is_driver_instance.
+
+(** ---- source tie: the model of sort_nodes_by_attr IS the function regenerated from /repo's text on this run
+    (theories/Gen/GraphUtilsGen.v by tools/gen_graphutils.py, primitives in Resolve/SourcePrims.v).  Hypotheses: the
+    node keys are distinct (a networkx graph is a dict of nodes) and no 'ez_isomer_atoms' value is a dict or uses a bool
+    as node key - on those two the hand-written model differs from the source (SourceTie.ref_ok). *)
+From CGV Require Resolve.SourcePrims Gen.GraphUtilsGen Resolve.SourceTie.
+Theorem C12_sort_model_is_source : forall g, NoDup (node_keys g) -> SourceTie.refs_modelled g ->
+  GraphUtilsGen.gen_sort_nodes_by_attr g GraphUtilsGen.sort_attr_default GraphUtilsGen.relative_attr_default
+  = GraphOps.sort_nodes_by_attr g.
+Proof. exact SourceTie.sort_is_source. Qed.
+Example C12_sort_model_is_source_nonvacuous :
+  let g := add_edge (add_node (add_node gempty 4 [(S "fragid", VList [VInt 1]); (S "ez_isomer_atoms", VTup [VInt 4; VInt 9])])
+                              9 [(S "fragid", VList [VInt 0])]) 4 9 [(S "order", VInt 1)] in
+  NoDup (node_keys g) /\ SourceTie.refs_modelled g /\
+  option_map observe (match GraphOps.sort_nodes_by_attr g with Ok h => Some h | Err _ => None end)
+  = Some ([(1, [(S "fragid", VList [VInt 1]); (S "ez_isomer_atoms", VList [VInt 1; VInt 0])]); (0, [(S "fragid", VList [VInt 0])])],
+          [(1, 0, [(S "order", VInt 1)])]).
+Proof.
+  cbv zeta. split; [repeat constructor; cbn; intuition discriminate|]. split; [|vm_compute; reflexivity].
+  repeat constructor; cbn; repeat constructor.
+Qed.
+Print Assumptions C12_sort_model_is_source.
